@@ -4,12 +4,21 @@ from bounded import graph_drv
 
 
 def run(tier, seed):
-    res = PropertyResult('C10', 'exploration',
-                         'Bounded (object-graph surgery is outside the VC generator): for every cell of the five built-in libraries (per distinct implementation in the quick tier) '
+    res = PropertyResult('C10', 'other',
+                         'Tier P (unbounded, one transformation step): the body of the loop of Circuit.eliminate_1to1_forks for one fork -- Node.remove and Line.remove inlined from their '
+                         'current source on the object-heap model of C09 -- from any well-formed state (W0-W6) with a non-port fork that has one connected input and one output and does not '
+                         'feed itself: W0-W6 hold again, exactly the fork and its output line are gone, the fork\'s input line now ends at the reader and pin where the output line ended, '
+                         'every other line and node is untouched; a fork being the identity, the function is preserved. Tier B: for every cell of the five built-in libraries (per distinct implementation in the quick tier) '
                          'x subsets of connected instance pins, for synthetic implementation shapes, and for copy / pickle / eliminate_1to1_forks and their composition on the '
                          'shared circuit space: the transformation does not raise, wf holds, names and order of ports and state elements are unchanged, and the observed Boolean '
                          'function is unchanged -- the last clause is decided per instance by z3 over symbolic inputs through the spec evaluator (complete over valuations).')
+    try:
+        from contracts import graph_c
+        from pyvc.verify import verify
+        res.report = verify(graph_c.targets_c10(), timeout_s=30 if tier == 'quick' else 120)
+    except ImportError:
+        res.report = None
     res.bounded = [graph_drv.transforms_part(tier, seed), graph_drv.cells_part(tier)]
-    res.assumptions = ['bounded over circuits / pin subsets; complete over input valuations (z3)', 'spec.evaln + the hierarchical instance semantics of bounded.graph_drv.HierEval are the oracle']
-    res.trusted_base = ['bounded/graph_drv.py', 'spec/evaln.py', 'z3 5.1.0']
+    res.assumptions = ['substitute, resolve_tlib_cells, copy and pickle are bounded only; the selection of the forks (guards of the loop) and the iteration over a snapshot of the fork table are not part of the proved block', 'bounded over circuits / pin subsets; complete over input valuations (z3)', 'spec.evaln + the hierarchical instance semantics of bounded.graph_drv.HierEval are the oracle']
+    res.trusted_base = ['pyvc', 'bounded/graph_drv.py', 'spec/evaln.py', 'z3 5.1.0']
     return res
